@@ -28,7 +28,7 @@ Menu == { It("cmt", "", FALSE, <<>>), It("inc", "", FALSE, <<>>), It("abi", "", 
           It("var", "exec_path", TRUE,  << <<R("nodef")>> >>),
           \* colliding expansions: the same value twice, values that are repetitions of one another under several references
           It("var", "a", FALSE, << <<L("/p")>> >>),
-          It("var", "a", TRUE,  << <<L("3")>>, <<L("33")>> >>),
+          It("var", "a", TRUE,  << <<L("/3")>>, <<L("/3/3")>> >>),
           It("var", "exec_path", TRUE,  << <<L("/o"), R("a"), R("a"), R("a")>> >>) }
 Atts == << <<R("exec_path")>> >>
 
